@@ -876,3 +876,48 @@ pub fn run_plain(fe: Fe, buf: BufKind, stream: &[u8], extra_polls: usize) -> Vec
         }
     }
 }
+
+
+/// decode_streaming fed by an adapter with an inexact size hint (a filter over the data
+/// interleaved with marker items that it removes again)
+pub fn drive_streaming_loose<B: Buffer>(stream: &[u8], extra_polls: usize) -> Vec<Obs> {
+    let src: Vec<Option<u8>> = stream
+        .iter()
+        .enumerate()
+        .flat_map(|(i, b)| if i % 3 == 0 { vec![None, Some(*b)] } else { vec![Some(*b)] })
+        .collect();
+    let mut it = decode_streaming::<B>(src.iter().filter_map(|x| *x));
+    let mut out = Vec::new();
+    let mut extra = None;
+    let cap = stream.len() + extra_polls + 4;
+    for _ in 0..cap {
+        let item = match it.next() {
+            None => Item::End,
+            Some(Ok(m)) => Item::Msg(m.to_vec()),
+            Some(Err(e)) => Item::Dec(DErr::from(&e)),
+        };
+        let end = item == Item::End;
+        out.push(Obs { pos: usize::MAX, item });
+        match extra {
+            Some(n) => {
+                if n <= 1 {
+                    break;
+                }
+                extra = Some(n - 1);
+            }
+            None => {
+                if end {
+                    if extra_polls == 0 {
+                        break;
+                    }
+                    extra = Some(extra_polls);
+                }
+            }
+        }
+    }
+    out
+}
+
+pub fn drive_streaming_loose_kind(buf: BufKind, stream: &[u8], extra_polls: usize) -> Vec<Obs> {
+    with_buf!(buf, B => drive_streaming_loose::<B>(stream, extra_polls))
+}
